@@ -388,7 +388,7 @@ def synthesizable(t):
 # ------------------------------------------------------------------------------------------------
 # argument bundles
 # ------------------------------------------------------------------------------------------------
-PLAIN, MASKED, UNMASKED_LEN = "plain", "masked", "unmasked-length"
+PLAIN, MASKED, UNMASKED_LEN, MASKED_UNMASKED_LEN = "plain", "masked", "unmasked-length", "masked-with-unmasked-length"
 
 
 def mask_for(n, m):
@@ -430,6 +430,11 @@ class Bundle:
                     self.protos.append(("marr", make_array(st, m, k, nonzero), mk, sl))
                 elif kind == UNMASKED_LEN:
                     self.protos.append(("arr", make_array(st, m, k, nonzero)))
+                elif kind == MASKED_UNMASKED_LEN:
+                    # a masked reference whose (masked) length equals the UNMASKED length of the masked self
+                    m2 = 2 * m + 5
+                    mk2, sl2 = mask_for(m, m2)
+                    self.protos.append(("marr", make_array(st, m2, k, nonzero), mk2, sl2, "ulen"))
                 else:
                     self.protos.append(("arr", make_array(st, ln, k, nonzero)))
                 ai += 1
@@ -464,7 +469,10 @@ class Bundle:
                 else:
                     return None
             elif p[0] == "marr":
-                out.append(p[1][p[3][i]])
+                if len(p) > 4:                     # masked right-hand side of the unmasked length: element at self's raw index
+                    out.append(p[1][p[3][self.sel[i]]])
+                else:
+                    out.append(p[1][p[3][i]])
             else:
                 out.append(p[1])
         return out
@@ -490,6 +498,7 @@ def kind_combos(e, quick):
     # in-place member op with masked self and a right-hand side of the UNMASKED length (maskable member functions)
     if k >= 2 and e.owner and e.name.startswith("__i") and strip_t(e.args[0]).startswith("PyImath::FixedArray<"):
         combos.append((MASKED, UNMASKED_LEN) + (PLAIN,) * (k - 2))
+        combos.append((MASKED, MASKED_UNMASKED_LEN) + (PLAIN,) * (k - 2))
     return combos
 
 
@@ -1028,7 +1037,7 @@ def main():
             R.stage_partial("%d of %d entry points finished before the deadline" % (len(results), len(todo)))
         else:
             R.stage_done("%d entry points x plain/masked argument kinds x all partitions by <=%d cuts from %s x all piece orders x tid maps"
-                         % (len(results), 3 if R.thorough() else 2, cut_alphabet(208)))
+                         % (len(results), 3 if R.thorough() else 2, cut_alphabet(208, not R.thorough())))
     return R.finish()
 
 
